@@ -176,6 +176,10 @@ class BandwidthLimitedStream:
             except RequestExceededException as e:
                 self._time_utils.sleep(e.retry_time)
         else:
+            # The transfer failed or was cancelled. If this stream was
+            # waiting for its turn, give up its scheduled consumption so
+            # the time allotted to it is not charged to the other streams.
+            self._leaky_bucket.abandon(self._request_token)
             raise self._transfer_coordinator.exception
 
     def signal_transferring(self):
@@ -275,6 +279,19 @@ class LeakyBucket:
                 )
             else:
                 return self._release_requested_amt(amt, time_now)
+
+    def abandon(self, request_token):
+        """Give up a consumption request that was scheduled for a retry
+
+        :type request_token: RequestToken
+        :param request_token: The token associated to the consumption
+            request. It is a no-op if no request is scheduled for the token.
+        """
+        with self._lock:
+            if self._consumption_scheduler.is_scheduled(request_token):
+                self._consumption_scheduler.process_scheduled_consumption(
+                    request_token
+                )
 
     def _projected_to_exceed_max_rate(self, amt, time_now):
         projected_rate = self._rate_tracker.get_projected_rate(amt, time_now)
